@@ -433,7 +433,7 @@ func H_c17_parse() {
 	// the first choice partitions the input space for sharding: entry x top two bits of byte 0
 	slice := nondet_choice("entry-x-quadrant", 16)
 	which := slice % 4
-	L := nondet_choice("L", verif_bound("parse-maxL", verifParseMaxL, 3)+1)
+	L := nondet_choice("L", verif_bound("parse-maxL", verifParseMaxL, verifParseMaxL)+1) // 3 bytes: 6 of 16 slices did not finish in 2 h each
 	src := nondet_bytes("src", L)
 	if L == 0 {
 		verif_assume(slice/4 == 0)
